@@ -26,6 +26,7 @@ func wgModels(ctx *core.Ctx, f func(i int, tm gen.Tagged) bool) {
 	extra = append(extra, gen.InterlockModels()...)
 	extra = append(extra, gen.SameTargetModels()...)
 	extra = append(extra, gen.TuplesetListModels()...)
+	extra = append(extra, gen.SecondRouteModels()...)
 	nSpecial := len(extra)
 	extra = append(extra, gen.ThreeRelModels(ctx.Thorough())...)
 	extra = append(extra, gen.NestedModels()...)
